@@ -130,6 +130,9 @@ def headerStep (op impl : String) : Option (String × String) :=
 def c26Step (st : Unit) (op impl : String) : Unit × String × String :=
   match headerStep op impl with
   | some (m, v) => (st, m, v)
-  | none => (st, "bad-op", "ok")
+  | none =>
+    match fields op with
+    | "pend" :: args => if args.length == 7 then (st, "-", judgePend impl) else (st, "bad-op", "ok")
+    | _ => (st, "bad-op", "ok")
 
 def main : IO Unit := Drv.main { init := (), step := c26Step }
